@@ -229,7 +229,6 @@ class _TwistedTcpConn:
                 StringTransport.write(self, data)
 
         fac = stw.ModbusServerFactory(store, framer=framelib.FRAMERS[framer], ignore_missing_slaves=ignore_missing)
-        fac.control.ListenOnly = False
         self.p = stw.ModbusTcpProtocol()
         self.p.factory = fac
         self.tr = Rec()
@@ -240,7 +239,6 @@ class _TwistedTcpConn:
             return [], None
         self.tr.writes = []
         esc = None
-        self.p.factory.control.ListenOnly = False     # listen-only mode (diagnostic sub-function 4) is outside the model
         try:
             self.p.dataReceived(bytes(chunk))
         except Exception as e:  # noqa
@@ -265,13 +263,11 @@ class _DgramTransport:
 class _TwistedUdpConn:
     def __init__(self, store, framer, ignore_missing):
         self.p = stw.ModbusUdpProtocol(store, framer=framelib.FRAMERS[framer], ignore_missing_slaves=ignore_missing)
-        self.p.control.ListenOnly = False
         self.p.transport = _DgramTransport()
 
     def feed(self, chunk):
         n = len(self.p.transport.out)
         esc = None
-        self.p.control.ListenOnly = False
         try:
             self.p.datagramReceived(bytes(chunk), ADDR)
         except Exception as e:  # noqa
@@ -285,8 +281,47 @@ class _TwistedUdpConn:
         pass
 
 
+MCB = ModbusControlBlock()      # the process-wide singleton all the message modules use
+
+
+def reset_control():
+    """put the process-wide control block into the state every case starts from"""
+    MCB.reset()
+    MCB.ListenOnly = False
+    MCB.Plus.reset()
+    MCB.Delimiter = b'\r'
+    ident = MCB.Identity
+    for k in list(dict(iter(ident))):
+        if k > 8:
+            del ident._ModbusDeviceIdentification__data[k]
+    for k in range(9):
+        ident._ModbusDeviceIdentification__data[k] = ''
+
+
+def control_json():
+    """the control block as the model's `Control` (driver field `control`)"""
+    c = MCB.Counter
+    counters = [c.BusMessage, c.BusCommunicationError, c.BusExceptionError, c.SlaveMessage, c.SlaveNoResponse, c.SlaveNAK,
+                c.SlaveBusy, c.BusCharacterOverrun, c.Event]
+    ident = []
+    for k, v in dict(iter(MCB.Identity)).items():
+        ident.append([k, list(v.encode() if isinstance(v, str) else v)])
+    return {'counters': counters, 'listen_only': bool(MCB.ListenOnly), 'diagreg': [int(b) for b in MCB.getDiagnosticRegister()],
+            'events': list(MCB.getEvents()), 'plus': list(MCB.Plus.encode()), 'ident': ident}
+
+
+def initial_control(identity=None):
+    """reset the control block to the state a case starts from (plus the given identity strings) and describe it"""
+    reset_control()
+    if identity:
+        for k, v in identity:
+            MCB.Identity._ModbusDeviceIdentification__data[k] = v
+    return control_json()
+
+
 class Session:
-    def __init__(self, kind, framer, single, units, ignore_missing, broadcast):
+    def __init__(self, kind, framer, single, units, ignore_missing, broadcast, identity=None):
+        initial_control(identity)
         self.kind, self.framer, self.units = kind, framer, units
         self.store, self.blocks = mk_units(single, units)
         self.srv = _Server(self.store, framer, ignore_missing, broadcast)
@@ -318,6 +353,10 @@ class Session:
     def dumps(self):
         return [[uid, dump_slave(self.blocks[uid])] for uid, _ in self.units]
 
+    def control(self):
+        c = control_json()
+        return {'counters': c['counters'], 'listen_only': c['listen_only']}
+
     def close(self):
         for c in self.conns:
             c.close()
@@ -326,11 +365,11 @@ class Session:
             self.loop.close()
 
 
-def run_schedule(kind, framer, single, units, ignore_missing, broadcast, nconns, schedule):
+def run_schedule(kind, framer, single, units, ignore_missing, broadcast, nconns, schedule, identity=None):
     """several connections sharing one datastore; schedule = list of (connection index, chunk).
     Returns (per-step written frames, per-step escaped exception kind, final dumps per unit, per-step "the connection is
     still served afterwards")"""
-    s = Session(kind, framer, single, units, ignore_missing, broadcast)
+    s = Session(kind, framer, single, units, ignore_missing, broadcast, identity)
     try:
         ids = [s.open() for _ in range(nconns)]
         outs, escs, alive = [], [], []
@@ -339,11 +378,11 @@ def run_schedule(kind, framer, single, units, ignore_missing, broadcast, nconns,
             outs.append(o)
             escs.append(e)
             alive.append(s.conns[ids[ci]].alive())
-        return outs, escs, s.dumps(), alive
+        return outs, escs, s.dumps(), alive, s.control()
     finally:
         s.close()
 
 
-def run_frontend(kind, framer, single, units, ignore_missing, broadcast, chunks):
+def run_frontend(kind, framer, single, units, ignore_missing, broadcast, chunks, identity=None):
     """one connection receiving `chunks`"""
-    return run_schedule(kind, framer, single, units, ignore_missing, broadcast, 1, [(0, c) for c in chunks])
+    return run_schedule(kind, framer, single, units, ignore_missing, broadcast, 1, [(0, c) for c in chunks], identity)
